@@ -55,6 +55,10 @@ C06_Scaled == T.e = "scale" =>
 Scaled == (T.e = "scale" /\ "prop" \in DOMAIN T) =>
   \/ T.equal
   \/ (TLCSet(2, TLCGet(2) + 1) /\ PrintT("VIOL " \o ToJson([prop |-> T.prop, id |-> T.n, line |-> l, what |-> "amounts beyond 2^31 / 2^64: a case scaled by a huge factor does not give the scaled postings / the same outcome"])))
+\* ... and a variable read back at the end of the scaled script still holds the (huge) value it was given
+ScaledVars == (T.e = "scale" /\ "given" \in DOMAIN T) =>
+  \/ (\A k \in DOMAIN T.given : T.read[k] = T.given[k])
+  \/ (TLCSet(2, TLCGet(2) + 1) /\ PrintT("VIOL " \o ToJson([prop |-> T.prop, id |-> T.n, line |-> l, what |-> "amounts beyond 2^64: a variable read back at the end of the script no longer holds the value it was given (a statement changed it)"])))
 Post == TLCGet(2) = 0
 ASSUME TLCSet(2, 0)
 =============================================================================
